@@ -76,21 +76,23 @@ let opres_of (s : sexp) : opres = match s with
   | L [A "written"; n] -> OWritten (z_of n)
   | s -> failwith ("opres: " ^ show_sexp s)
 
-let event_of (s : sexp) : int * ev = match s with
-  | L [A "validate"; off; a; b; c] -> (int_of_string (atom off), CbValidate (b_of a, b_of b, b_of c))
-  | L [A "mw"; off; i] -> (int_of_string (atom off), CbMw (z_of i))
-  | L [A "parse"; off; q] -> (int_of_string (atom off), CbParse (b_of q))
-  | L [A "exec"; off; sid; L (A "params" :: ps)] ->
-      (int_of_string (atom off),
+let event_of (s : sexp) : int * int * ev =
+  let i a = int_of_string (atom a) in
+  match s with
+  | L [A "validate"; off; t; a; b; c] -> (i off, i t, CbValidate (b_of a, b_of b, b_of c))
+  | L [A "mw"; off; t; n] -> (i off, i t, CbMw (z_of n))
+  | L [A "parse"; off; t; q] -> (i off, i t, CbParse (b_of q))
+  | L [A "exec"; off; t; sid; L (A "params" :: ps)] ->
+      (i off, i t,
        CbExec (z_of sid, List.map (function
          | L [f; A "null"] -> (z_of f, None)
          | L [f; v] -> (z_of f, Some (b_of v))
          | s -> failwith ("param: " ^ show_sexp s)) ps))
-  | L [A "op"; off; r] -> (int_of_string (atom off), CbOp (opres_of r))
-  | L [A "terminate"; off] -> (int_of_string (atom off), CbTerminate)
+  | L [A "op"; off; t; r] -> (i off, i t, CbOp (opres_of r))
+  | L [A "terminate"; off; t] -> (i off, i t, CbTerminate)
   | s -> failwith ("event_of: " ^ show_sexp s)
 
-type obs = { out : byte list; events : (int * ev) list; closed : bool; panicked : bool; hang : bool;
+type obs = { out : byte list; events : (int * int * ev) list; closed : bool; panicked : bool; hang : bool;
              steps : int list; sslreq : bool }
 
 let obs_of (fields : sexp list) : obs =
@@ -117,8 +119,21 @@ let split_out (start : int) (out : byte list) : (int * byte * byte list) list op
         go (pos + 1 + len) ((start + pos + 1 + len, a.(pos), body) :: acc)
   in go 0 []
 
-(* Some log, or None when the output is not a well-formed message stream *)
-let impl_log (o : obs) : ev list option =
+(* merge messages (with end offsets) and callbacks (with the output offset at
+   which they happened) into one chronological list *)
+let rec merge msgs evs acc = match evs with
+  | [] -> List.rev_append acc (List.map (fun (_, m) -> Out m) msgs)
+  | (off, e) :: er ->
+      let rec take ms acc = match ms with
+        | (eo, m) :: mr when eo <= off -> take mr (Out m :: acc)
+        | _ -> (ms, acc) in
+      let (ms', acc') = take msgs acc in
+      merge ms' er (e :: acc')
+
+(* Some log, or None when the output is not a well-formed message stream.
+   In lock-step mode ([lock]) the log carries a [Consume] marker in front of
+   the events of every delivered client chunk after the startup chunk. *)
+let impl_log ?(pre = 1) (lock : bool) (o : obs) : ev list option =
   let raw_prefix, rest, start = match o.sslreq, o.out with
     | true, b :: r -> ([RawOut b], r, 1)
     | _, out -> ([], out, 0) in
@@ -129,18 +144,24 @@ let impl_log (o : obs) : ev list option =
       if List.exists (fun (_, m) -> m = None) msgs then None
       else
         let msgs = List.map (fun (e, m) -> match m with Some m -> (e, m) | None -> assert false) msgs in
-        let rec merge msgs evs acc = match evs with
-          | [] -> List.rev_append acc (List.map (fun (_, m) -> Out m) msgs)
-          | (off, e) :: er ->
-              let rec take ms acc = match ms with
-                | (eo, m) :: mr when eo <= off -> take mr (Out m :: acc)
-                | _ -> (ms, acc) in
-              let (ms', acc') = take msgs acc in
-              merge ms' er (e :: acc')
-        in
-        let body = merge msgs o.events [] in
         let tail = (if o.panicked then [Crash] else []) @ (if o.closed then [Closed] else []) in
-        Some (raw_prefix @ body @ tail)
+        if not lock then
+          Some (raw_prefix @ merge msgs (List.map (fun (off, _, e) -> (off, e)) o.events) [] @ tail)
+        else begin
+          let steps = Array.of_list o.steps in
+          let n = Array.length steps in
+          (* turn k (1-based) owns the messages ending in (steps[k-2], steps[k-1]]; the last turn also owns the rest *)
+          let turn_of_msg eo =
+            let rec go k = if k >= n then max n 1 else if eo <= steps.(k) then k + 1 else go (k + 1) in go 0 in
+          let body = ref [] in
+          for k = 1 to max n 1 do
+            let ms = List.filter (fun (eo, _) -> turn_of_msg eo = k) msgs in
+            let es = List.filter_map (fun (off, t, e) ->
+              if t = k || (k = max n 1 && t > k) || (k = 1 && t < 1) then Some (off, e) else None) o.events in
+            body := !body @ (if k > pre then [Consume] else []) @ merge ms es []
+          done;
+          Some (raw_prefix @ !body @ tail)
+        end
 
 (* ---- printing ---- *)
 let show_bytes b = atom_of_bytes b
@@ -225,45 +246,27 @@ let sess_cross_footer = "].\nDefinition bad := Eval vm_compute in\n  map (fun c 
 (* the generic correspondence check of a session case *)
 type sess_result = { case_ : scase; obs_ : obs; model : ev list; impl : ev list option }
 
+let is_lock (fields : sexp list) : bool = (try atom (field1 "lock" fields) = "1" with _ -> false)
+
 let run_sess (fields : sexp list) : sess_result =
   let c = case_of fields in
   let o = obs_of fields in
-  { case_ = c; obs_ = o; model = run_case c; impl = impl_log o }
+  let pre = (try int_of_string (atom (field1 "pre" fields)) with _ -> 1) in
+  { case_ = c; obs_ = o; model = run_case c; impl = impl_log ~pre (is_lock fields) o }
 
 let cross_of (r : sess_result) : string option =
   (* only small cases go to the vm_compute cross-check *)
   if List.length r.case_.sc_raw > 600 then None
   else Some ("(" ^ cq_case r.case_ ^ ", " ^ cq_bytes (log_digest r.model) ^ ")")
 
-(* lock-step offsets: the implementation's output length after each delivered
-   chunk (server idle) vs the model's output length before each Consume *)
-let steps_ok (r : sess_result) : bool * int list * int list =
-  let offs = List.map int_of_z (consume_offsets Z0 r.model) in
-  (* implementation: bytes -> number of complete items delivered *)
-  let ends = match r.obs_.sslreq, r.obs_.out with
-    | true, _ :: rest -> 1 :: (match split_out 1 rest with Some fs -> List.map (fun (e, _, _) -> e) fs | None -> [])
-    | _, out -> (match split_out 0 out with Some fs -> List.map (fun (e, _, _) -> e) fs | None -> []) in
-  let count off = List.length (List.filter (fun e -> e <= off) ends) in
-  let impl = List.map count r.obs_.steps in
-  let rec go (impl : int list) (model : int list) = match impl, model with
-    | [], _ -> true
-    | i :: ir, [m] -> i = m && go ir [m]       (* connection over: output stays *)
-    | i :: ir, m :: mr -> i = m && go ir mr
-    | _ :: _, [] -> false
-  in (go impl offs, impl, offs)
-
 let correspondence (fields : sexp list) (r : sess_result) : verdict =
   match r.impl with
   | None -> Diff "implementation output is not a well-formed message stream"
   | Some il ->
       if r.obs_.hang then Diff "implementation hangs"
-      else if not (log_match r.model il) then
-        Diff (Printf.sprintf "log mismatch\n    model: %s\n    impl:  %s" (show_log (strip_consume r.model)) (show_log il))
       else
-        let lock = (try atom (field1 "lock" fields) = "1" with _ -> false) in
-        let (ok, impl, offs) = if lock then steps_ok r else (true, [], []) in
-        if not ok then
-          Diff (Printf.sprintf "lock-step reply counts differ: impl %s model %s"
-                  (String.concat "," (List.map string_of_int impl))
-                  (String.concat "," (List.map string_of_int offs)))
+        let lock = is_lock fields in
+        let m = if lock then r.model else strip_consume r.model in
+        if not (log_match m il) then
+          Diff (Printf.sprintf "log mismatch\n    model: %s\n    impl:  %s" (show_log m) (show_log il))
         else Ok_
